@@ -165,8 +165,19 @@ def h_elemental(d: bool):
         gd.Chem = _FakeChem({'M': [_FAtom(z) for z in zs]}, nh)
     else:
         # replay with the real RDKit: isolated bracket atoms (no implicit H) plus nh explicit [H] atoms
+        # the nh hydrogens are written as the H count of the first heavy bracket atom (so that they exist only after AddHs);
+        # with no heavy atom they are separate [H] atoms
         sym = {1: 'H', 6: 'C', 7: 'N', 8: 'O', 44: 'Ru', 78: 'Pt'}
-        name = '.'.join(['[%s]' % sym[z] for z in zs] + ['[H]'] * nh)
+        parts, placed = [], False
+        for z in zs:
+            if z != 1 and not placed and nh:
+                parts.append('[%sH%d]' % (sym[z], nh) if nh > 1 else '[%sH]' % sym[z])
+                placed = True
+            else:
+                parts.append('[%s]' % sym[z])
+        if not placed:
+            parts += ['[H]'] * nh
+        name = '.'.join(parts)
     try:
         corrs = [_GC(i) for i in range(ncorr)]
         counts = dict((i, R('n%d' % i)) for i in range(ncorr))
